@@ -271,7 +271,7 @@ def print_dependency_code(modules):
     code = "import os\n"
     code += "current_module_dir = os.path.dirname(os.path.abspath(__file__))\n"
     code += 'from Solverz import load\n'
-    code += 'auxiliary = load(f"{current_module_dir}\\\\param_and_setting.pkl")\n'
+    code += 'auxiliary = load(os.path.join(current_module_dir, "param_and_setting.pkl"))\n'
     code += 'from numpy import *\n'
     code += 'from Solverz.num_api.module_parser import *\n'
     code += 'setting = auxiliary["eqn_param"]\n'
